@@ -149,7 +149,9 @@ def _coeffs():
 
 
 def _lengths():
-    return st.one_of(st.integers(2, 64), st.integers(4, 64), st.integers(0, 64), st.sampled_from([0, 1, 2, 3, 5, 8, 33, 64]))
+    # all small lengths, plus (1 case in ~16) recordings long enough to cross any internal block size
+    small = [st.integers(2, 64), st.integers(4, 64), st.integers(0, 64), st.sampled_from([0, 1, 2, 3, 5, 8, 33, 64])]
+    return st.one_of(*(small * 4 + [st.sampled_from([4097, 16385, 16386, 32769, 40000, 65537, 100003])]))
 
 
 def preemph_cases():
